@@ -76,19 +76,19 @@ impl Inner for RefStore {
     fn put(&mut self, p: Passkey) { self.items.push(p); }
 }
 // the library's four lock wrappers, around any store of the harness
-impl<S: Inner> Inner for Arc<tokio::sync::Mutex<S>> {
+impl<S: Inner + Clone> Inner for Arc<tokio::sync::Mutex<S>> {
     fn all(&self) -> Vec<Passkey> { self.try_lock().unwrap().all() }
     fn put(&mut self, p: Passkey) { self.try_lock().unwrap().put(p); }
 }
-impl<S: Inner> Inner for Arc<tokio::sync::RwLock<S>> {
+impl<S: Inner + Clone> Inner for Arc<tokio::sync::RwLock<S>> {
     fn all(&self) -> Vec<Passkey> { self.try_read().unwrap().all() }
     fn put(&mut self, p: Passkey) { self.try_write().unwrap().put(p); }
 }
-impl<S: Inner> Inner for tokio::sync::Mutex<S> {
+impl<S: Inner + Clone> Inner for tokio::sync::Mutex<S> {
     fn all(&self) -> Vec<Passkey> { self.try_lock().unwrap().all() }
     fn put(&mut self, p: Passkey) { self.try_lock().unwrap().put(p); }
 }
-impl<S: Inner> Inner for tokio::sync::RwLock<S> {
+impl<S: Inner + Clone> Inner for tokio::sync::RwLock<S> {
     fn all(&self) -> Vec<Passkey> { self.try_read().unwrap().all() }
     fn put(&mut self, p: Passkey) { self.try_write().unwrap().put(p); }
 }
